@@ -22,10 +22,14 @@ func (c *Compiled) CodeObject() *insts.KernelCodeObject {
 		// user SGPRs = 2 (kernarg pointer); work-group id x,y,z; work-item id x,y,z
 		ComputePgmRsrc2: 2<<1 | 1<<7 | 1<<8 | 1<<9 | 2<<11,
 	}
+	version := insts.CodeObjectV3
+	if c.PackedIDs {
+		version = insts.CodeObjectV5
+	}
 	return &insts.KernelCodeObject{
 		KernelCodeObjectMeta: meta,
 		Data:                 append([]byte(nil), c.Code...),
-		Version:              insts.CodeObjectV3,
+		Version:              version,
 	}
 }
 
